@@ -21,7 +21,7 @@ def generate_and_drive(ctx):
     t6 = os.path.join(ctx.scratch, "trace06.ndjson")
     s = core.absorb(ctx, ctx.harness(["cenc-drive", "-in", inp, "-trace07", t7, "-trace06", t6], timeout=3000))
     ctx.cov["bounds"] = {"nal_sizes": "classes around 16/96/112/128 and the 64 KiB clear-run split", "nals_per_sample": "1..2 (3 for the 64 KiB set)",
-                         "samples_per_fragment": "1..3", "schemes": ["cenc (avc, hevc, audio)", "cbcs (audio; avc via corpus init.mp4+1.m4s)"],
+                         "samples_per_fragment": "1..3", "schemes": ["cenc (avc, hevc, audio)", "cbcs (audio; avc: generated multi-slice samples with real slice-header heads, and corpus init.mp4+1.m4s)"],
                          "ivs": "8 and 16 bytes: zero, one, ..00ff (carry), ff..fe, ff..ff (wrap), mixed, random",
                          "extra_boxes": ["none", "vndr+zzzz+moof-level uuid", "also a non-senc uuid inside traf"]}
     return s, t7, t6
